@@ -14,6 +14,7 @@ package main
 
 import (
 	"fmt"
+	"go/constant"
 	"go/token"
 	"go/types"
 
@@ -37,10 +38,12 @@ type wireEval struct {
 }
 
 type wireFrame struct {
-	f    *ssa.Function
-	env  map[ssa.Value]ssa.Value  // parameter -> caller value
-	bufs map[ssa.Value][]wireItem // byte-slice values built so far
-	w    ssa.Value                // the *bufio.Writer in this frame
+	f      *ssa.Function
+	env    map[ssa.Value]ssa.Value  // parameter -> caller value
+	bufs   map[ssa.Value][]wireItem // byte-slice values built so far
+	w      ssa.Value                // the *bufio.Writer in this frame
+	ret    []wireItem               // items of the byte slice the frame returned (buffer-building helpers)
+	hasRet bool
 }
 
 func (fr *wireFrame) resolve(v ssa.Value) ssa.Value {
@@ -119,13 +122,74 @@ func (e *wireEval) run(fr *wireFrame, start *ssa.BasicBlock, depth int) {
 		return
 	}
 	b := start
-	visited := map[*ssa.BasicBlock]bool{}
+	var prev *ssa.BasicBlock
+	visits := map[*ssa.BasicBlock]int{}
+	mkConst := func(k int64) ssa.Value { return ssa.NewConst(constant.MakeInt64(k), types.Typ[types.Int]) }
+	// elemsOf: the elements of an array or slice literal built in this frame
+	elemsOf := func(v ssa.Value) ([]ssa.Value, bool) {
+		switch y := v.(type) {
+		case *ssa.Slice:
+			return sliceLitElems(y)
+		case *ssa.UnOp:
+			if al, ok := y.X.(*ssa.Alloc); ok && y.Op == token.MUL {
+				return allocElems(al)
+			}
+		case *ssa.Alloc:
+			return allocElems(y)
+		}
+		return nil, false
+	}
 	for b != nil && e.unknown == "" {
-		if visited[b] {
+		visits[b]++
+		if visits[b] > 24 {
 			e.fail("loop in %s", fname(fr.f))
 			return
 		}
-		visited[b] = true
+		// phis take the value of the edge the block was entered by (all at once)
+		if prev != nil {
+			idx := -1
+			for i, p := range b.Preds {
+				if p == prev {
+					idx = i
+				}
+			}
+			type upd struct {
+				ph  *ssa.Phi
+				val ssa.Value
+				its []wireItem
+				isB bool
+			}
+			var ups []upd
+			for _, in := range b.Instrs {
+				ph, ok := in.(*ssa.Phi)
+				if !ok {
+					break
+				}
+				if idx < 0 || idx >= len(ph.Edges) {
+					continue
+				}
+				ev := ph.Edges[idx]
+				u := upd{ph: ph, val: fr.resolve(ev)}
+				if its, ok := fr.bufs[ev]; ok {
+					u.its, u.isB = its, true
+				} else if its, ok := fr.bufs[u.val]; ok {
+					u.its, u.isB = its, true
+				}
+				ups = append(ups, u)
+			}
+			for _, u := range ups {
+				if u.val != ssa.Value(u.ph) {
+					fr.env[u.ph] = u.val
+				} else {
+					delete(fr.env, u.ph)
+				}
+				if u.isB {
+					fr.bufs[u.ph] = u.its
+				} else {
+					delete(fr.bufs, u.ph)
+				}
+			}
+		}
 		var next *ssa.BasicBlock
 		for _, in := range b.Instrs {
 			e.steps++
@@ -135,7 +199,7 @@ func (e *wireEval) run(fr *wireFrame, start *ssa.BasicBlock, depth int) {
 			}
 			switch x := in.(type) {
 			case *ssa.Slice:
-				if els, ok := sliceLitElems(x); ok {
+				if els, ok := sliceLitElems(x); ok && isByteSlice(x.Type()) {
 					var its []wireItem
 					for _, el := range els {
 						its = append(its, wireItem{8, fr.resolve(el)})
@@ -146,21 +210,102 @@ func (e *wireEval) run(fr *wireFrame, start *ssa.BasicBlock, depth int) {
 						fr.bufs[x] = its
 					}
 				}
+			case *ssa.BinOp:
+				// small integer arithmetic on known values (loop counters over literals)
+				if x.Op == token.ADD || x.Op == token.SUB {
+					lx, okx := constInt(fr.resolve(x.X))
+					ly, oky := constInt(fr.resolve(x.Y))
+					if okx && oky && isInteger(x.Type()) {
+						if x.Op == token.ADD {
+							fr.env[x] = mkConst(lx + ly)
+						} else {
+							fr.env[x] = mkConst(lx - ly)
+						}
+					} else {
+						delete(fr.env, x)
+					}
+				}
+			case *ssa.Index:
+				if els, ok := elemsOf(x.X); ok {
+					if k, okk := constInt(fr.resolve(x.Index)); okk && k >= 0 && int(k) < len(els) {
+						fr.env[x] = fr.resolve(els[k])
+						if its, okb := fr.bufs[els[k]]; okb {
+							fr.bufs[x] = its
+						}
+					}
+				}
+			case *ssa.UnOp:
+				if ia, ok := x.X.(*ssa.IndexAddr); ok && x.Op == token.MUL {
+					if els, ok := elemsOf(ia.X); ok {
+						if k, okk := constInt(fr.resolve(ia.Index)); okk && k >= 0 && int(k) < len(els) {
+							fr.env[x] = fr.resolve(els[k])
+							if its, okb := fr.bufs[els[k]]; okb {
+								fr.bufs[x] = its
+							} else {
+								delete(fr.bufs, x)
+							}
+						}
+					}
+				}
 			case *ssa.Call:
+				if bi, ok := x.Call.Value.(*ssa.Builtin); ok && bi.Name() == "len" && len(x.Call.Args) == 1 {
+					if els, ok := elemsOf(x.Call.Args[0]); ok {
+						fr.env[x] = mkConst(int64(len(els)))
+					}
+				}
 				e.call(fr, x, depth)
 			case *ssa.If:
 				next = e.branch(fr, x)
 			case *ssa.Jump:
 				next = b.Succs[0]
-			case *ssa.Return, *ssa.Panic:
+			case *ssa.Return:
+				if len(x.Results) == 1 && isByteSlice(x.Results[0].Type()) {
+					fr.ret, fr.hasRet = e.bytesOf(fr, x.Results[0]), true
+				}
+				return
+			case *ssa.Panic:
 				return
 			}
 			if e.unknown != "" {
 				return
 			}
 		}
+		prev = b
 		b = next
 	}
+}
+
+// allocElems: the values stored into the elements of a local array (a literal), by constant index.
+func allocElems(al *ssa.Alloc) ([]ssa.Value, bool) {
+	at, ok := derefType(al.Type()).Underlying().(*types.Array)
+	if !ok || at.Len() > 64 {
+		return nil, false
+	}
+	els := make([]ssa.Value, at.Len())
+	for _, ref := range *al.Referrers() {
+		ia, ok := ref.(*ssa.IndexAddr)
+		if !ok {
+			continue
+		}
+		k, okk := constInt(ia.Index)
+		if !okk || k < 0 || k >= at.Len() {
+			continue // a read with a variable index
+		}
+		for _, r2 := range *ia.Referrers() {
+			if st, ok := r2.(*ssa.Store); ok && st.Addr == ssa.Value(ia) {
+				if els[k] != nil {
+					return nil, false
+				}
+				els[k] = st.Val
+			}
+		}
+	}
+	for _, x := range els {
+		if x == nil {
+			return nil, false
+		}
+	}
+	return els, true
 }
 
 // branch picks the successor to follow.
@@ -273,6 +418,9 @@ func endsEarly(b *ssa.BasicBlock) bool {
 // or calls a helper of package protocol.
 func writesBeforeJoin(b *ssa.BasicBlock, fr *wireFrame) bool {
 	for i := 0; i < 6 && b != nil; i++ {
+		if len(b.Preds) > 1 {
+			return false // the paths have rejoined
+		}
 		for _, in := range b.Instrs {
 			c, ok := in.(*ssa.Call)
 			if !ok {
@@ -390,6 +538,37 @@ func (e *wireEval) call(fr *wireFrame, c *ssa.Call, depth int) {
 			}
 		}
 		if wIdx < 0 {
+			// a helper that builds on a buffer it is handed and returns it (appendHeader(buf, tpe, n))
+			bIdx := -1
+			for i, a := range args {
+				if _, ok := fr.bufs[a]; ok {
+					bIdx = i
+				} else if _, ok := fr.bufs[fr.resolve(a)]; ok {
+					bIdx = i
+				}
+			}
+			if bIdx < 0 || !isByteSlice(c.Type()) || len(args) != len(h.Params) {
+				return
+			}
+			nf := &wireFrame{f: h, env: map[ssa.Value]ssa.Value{}, bufs: map[ssa.Value][]wireItem{}}
+			for i, p := range h.Params {
+				ra := fr.resolve(args[i])
+				nf.env[p] = ra
+				if its, ok := fr.bufs[args[i]]; ok {
+					nf.bufs[p] = its
+				} else if its, ok := fr.bufs[ra]; ok {
+					nf.bufs[p] = its
+				}
+			}
+			before := len(e.out)
+			e.run(nf, h.Blocks[0], depth+1)
+			if len(e.out) != before {
+				e.fail("%s writes without being handed the writer", fname(h))
+				return
+			}
+			if nf.hasRet {
+				fr.bufs[c] = nf.ret
+			}
 			return
 		}
 		nf := &wireFrame{f: h, env: map[ssa.Value]ssa.Value{}, bufs: map[ssa.Value][]wireItem{}, w: h.Params[wIdx]}
